@@ -473,7 +473,7 @@ def offenders(res, base):
                 if h["create"] is not None and h["create"] < win[1] and (h["dbegin"] is None or h["dbegin"] > win[0]):
                     may.add(i)
                 if h["cbegin"] is not None and h["cbegin"] < win[0] and (h["res_lock"] is None or h["res_lock"] > win[1]):
-                    if first_cancel is None or (h["upd_lock"] is not None and h["upd_lock"] < first_cancel):
+                    if first_cancel is None or (h["upd_unlock"] is not None and h["upd_unlock"] < first_cancel):
                         must.add(i)
             got = set(x for x in ep["listing"] if isinstance(x, int))
             if any(not isinstance(x, int) for x in ep["listing"]):
